@@ -13,6 +13,7 @@ they return; assemble returns a record or raises a MocloError.
 import itertools
 
 from .. import asm, gen, refmodel as rm
+from ..engine import HarnessError
 from Bio.Seq import Seq
 from moclo import errors
 from moclo.record import CircularRecord
@@ -29,18 +30,19 @@ def bounds(tier):
     return dict(blind=dict(alphabet=ALPHABET, lengths=[1, 2, 3], classes="all concrete kit classes + generic module/vector of every enzyme geometry",
                            length4="generic BsaI module+vector, YTKPart1, CIDAREntryVector, YTKProduct, YTKPart234r" if tier == "thorough" else "not explored"),
                 near_miss="own class + generic relatives: all substitutions (29), deletions, prefixes, suffixes of 1 (quick) / 2 (thorough) instances",
-                assemblies="k<=2, 6 participant states, all combinations; single-letter corruptions of one participant (BsaI, BpiI)")
+                containers=["Seq", "MutableSeq", "annotated (features of every location flavour, per-letter annotations, cross references)"],
+                assemblies="k<=2, 6 participant states, all combinations, each in 5 container assignments; single-letter corruptions of one participant (BsaI, BpiI)")
 
 
 def goals(tier):
     return ["blind-complete", "near-miss-valid", "near-miss-invalid", "assembly-product", "assembly-moclo-error", "ambiguity-letter-in-structure",
-            "shorter-than-structure", "invalid-accessor-raises"]
+            "shorter-than-structure", "invalid-accessor-raises", "record-in-every-container"]
 
 
-def probe(st, sub, cls, s, scn):
+def probe(st, sub, cls, s, scn, container="seq"):
     """full totality protocol on one (class, record)"""
     try:
-        e = cls(CircularRecord(Seq(s), id="t"))
+        e = cls(gen.contained(s, container, "t"))
         v = e.is_valid()
     except Exception as ex:
         st.violation(sub, "is_valid-raises-" + type(ex).__name__, scn(), "True or False", "{}: {}".format(type(ex).__name__, str(ex)[:120]))
@@ -153,6 +155,14 @@ def run_unit(unit, st, tier):
             for label, s in variants:
                 for cls in classes:
                     v = probe(st, "near-miss", cls, s, lambda: dict(family="near", cls=cls.__name__, seq=s, mod=label))
+                    if kind == "near-generic" and s:
+                        # the same record in the other containers a user may hand over: same verdict, same totality
+                        for cont in gen.CONTAINERS[1:]:
+                            v2 = probe(st, "near-miss", cls, s, lambda: dict(family="near", cls=cls.__name__, seq=s, mod=label, container=cont), container=cont)
+                            st.scenario("near-container", None, calls=4)
+                            st.goal("record-in-every-container")
+                            if v2 is not None and v is not None and v2 != v:
+                                st.violation("near-miss", "verdict-depends-on-the-container-" + cont, dict(family="near", cls=cls.__name__, seq=s, mod=label, container=cont), v, v2)
                     st.scenario("near-" + ("valid" if v else "invalid"), None, calls=4)
                     st.nontrivial += 1
                     if v:
@@ -200,8 +210,12 @@ def participant(enz, role, idx, state, base):
 
 def run_mixed(st, sub, enz, strings, scn):
     M, V = gen.generic_classes(enz)
-    v = V(CircularRecord(Seq(strings[0]), id="v"))
-    ms = [M(CircularRecord(Seq(x), id="m%d" % i)) for i, x in enumerate(strings[1:])]
+    conts = scn.get("containers") or ["seq"] * len(strings)
+    try:
+        v = V(gen.contained(strings[0], conts[0], "v"))
+        ms = [M(gen.contained(x, conts[i + 1], "m%d" % i)) for i, x in enumerate(strings[1:])]
+    except Exception as ex:
+        raise HarnessError("cannot build participants: {}: {}".format(type(ex).__name__, ex))
     o = asm.run_assemble(v, ms)
     if o.kind == "product":
         st.goal("assembly-product")
@@ -233,6 +247,10 @@ def unit_assembly(st, enz, tier):
             for perm in itertools.permutations(range(k)):
                 ss = [strings[0]] + [strings[1 + i] for i in perm]
                 run_mixed(st, "assembly", enz, ss, dict(family="assembly", enz=enz, strings=ss, states=list(combo), perm=list(perm)))
+                # the same mix with the records in the other containers a user may hand over
+                for conts in (["mutable"] * (k + 1), ["annotated"] * (k + 1), ["mutable"] + ["seq"] * k, ["seq"] + ["annotated"] * k):
+                    run_mixed(st, "assembly", enz, ss, dict(family="assembly", enz=enz, strings=ss, states=list(combo), perm=list(perm), containers=conts))
+                    st.goal("record-in-every-container")
     st.sample(dict(family="assembly", enz=enz, states=["valid", "too-short"], k=1))
 
 
@@ -260,5 +278,7 @@ def replay(scn, sub, st):
         cls = gen.class_by_name(scn["cls"])
         gen.prime([cls])
         probe(st, sub, cls, scn["seq"], lambda: scn)
+        if scn.get("container"):
+            probe(st, sub, cls, scn["seq"], lambda: scn, container=scn["container"])
     else:
         run_mixed(st, sub, scn["enz"], scn["strings"], scn)
